@@ -753,6 +753,9 @@ int gd_uninclude(DIRFILE* D, int fragment_index, int del)
   D->fl.value_list_validity = 0;
   D->fl.entry_list_validity = 0;
 
+  /* the cache clearing above has also forgotten what the aliases point to */
+  _GD_UpdateAliases(D, 1);
+
   free(f);
 
   dreturn("%i", 0);
